@@ -32,6 +32,18 @@ L_epic == <<EvNew("epic", "i1", "", "todo", "E1", "", 1), EvNew("task", "i2", "i
 L_done == <<EvNew("task", "i1", "", "todo", "T1", "", 1), EvNew("task", "i2", "", "todo", "T2", "", 2),
             EvState("i1", "done", 3)>>
 L_one  == <<EvNew("task", "i1", "", "todo", "T1", "", 1)>>
+L_hist == <<EvNew("task", "i1", "", "todo", "T1", "", 1), EvTitle("i1", "T1b", 2), EvTitle("i1", "T1c", 3),
+            EvClaim("i1", "a1", 4), EvState("i1", "doing", 4), EvState("i1", "done", 5), EvUnclaim("i1", 5),
+            EvNew("task", "i2", "", "todo", "T2", "", 6), EvBody("i2", "b1", 7), EvBody("i2", "b2", 8)>>
+L_closedepic == <<EvNew("epic", "i1", "", "todo", "E1", "", 1), EvNew("task", "i2", "i1", "todo", "T2", "", 2),
+                  EvNew("task", "i3", "i1", "todo", "T3", "", 3), EvNew("task", "i4", "", "todo", "T4", "", 4),
+                  EvState("i2", "done", 5), EvState("i3", "canceled", 6)>>
+\* epic i2 waits for epic i1, whose only open task (i3) was MOVED into it after creation;
+\* i5 was moved out of i2 and is free
+L_moved == <<EvNew("epic", "i1", "", "todo", "E1", "", 1), EvNew("epic", "i2", "", "todo", "E2", "", 2),
+             EvNew("task", "i3", "", "todo", "T3", "", 3), EvNew("task", "i4", "i2", "todo", "T4", "", 4),
+             EvNew("task", "i5", "i2", "todo", "T5", "", 5),
+             EvLink("link", "i2", "i1", 6), EvEpic("i3", "i1", 7), EvEpic("i5", "", 8)>>
 L_emptyepic == <<EvNew("epic", "i1", "", "todo", "E1", "", 1), EvNew("task", "i2", "", "todo", "T2", "", 2)>>
 L_empty == <<>>
 \* a multi-megabyte log ("BIG" is expanded by the driver into a 6 MB body)
@@ -58,7 +70,12 @@ ClaimScenarios == {
   S("claim2-epic2", L_epic, P2(ClaimIn("i1", "a1"), ClaimIn("i1", "a2")), {}),
   SN("claim2-nolock", L_two, P2(Claim("a1"), Claim("a2")), {}),
   S("claim2-big",  L_big,  P2(Claim("a1"), Claim("a2")), {}),
-  S("claim-reopen", L_done, P2(Claim("a1"), SetState("i1", "todo", "")), {})
+  S("claim-reopen", L_done, P2(Claim("a1"), SetState("i1", "todo", "")), {}),
+  \* a whole-log rewrite between two claimers (whatever it does to the files in
+  \* .ergo, the two must still exclude each other)
+  S("claim-compact-claim", L_done, P3(Claim("a1"), Compact, Claim("a2")), {}),
+  S("claim2-moved", L_moved, P2(ClaimIn("i2", "a1"), Claim("a2")), {}),
+  S("claim2-moved-any", L_moved, P2(Claim("a1"), Claim("a2")), {})
 }
 
 PairScenarios == {
@@ -121,6 +138,10 @@ CrashScenarios == {
   S("k-prune",   <<EvNew("task", "i1", "", "todo", "T1", "", 1), EvNew("task", "i2", "", "todo", "T2", "", 2),
                    EvState("i1", "done", 3), EvState("i2", "canceled", 4)>>, P1(Prune), {}),
   S("k-compact", L_done, P1(Compact), {}),
+  \* a log with superseded history (compaction shrinks it) and one with closed tasks inside an epic
+  S("k-compact-hist", L_hist, P1(Compact), {}),
+  S("k-prune-epic", L_closedepic, P1(Prune), {}),
+  S("k-plan-hist", L_hist, P1(PlanAB), {}),
   S("k-plan",    L_one,  P1(PlanAB), {}),
   S("k-plan-empty", L_empty, P1(PlanAB), {}),
   S("k-new-uni", L_one, P1(NewTaskUni), {}),
